@@ -600,6 +600,7 @@ func runCanaries(root, repo, prop string) []string {
 		}
 		var meta struct {
 			Property string `json:"property"`
+			KnownGap string `json:"known_gap"` // recorded reason why no contract within reach reports this change
 		}
 		if json.Unmarshal(b, &meta) != nil || meta.Property != prop {
 			continue
@@ -636,6 +637,8 @@ func runCanaries(root, repo, prop string) []string {
 					}
 				}
 				out = append(out, fmt.Sprintf("canary %s: detected (%s)", name, shortKey(first)))
+			} else if meta.KnownGap != "" {
+				out = append(out, fmt.Sprintf("canary %s: NOT DETECTED by the quick check (exit %d) - recorded gap: %s", name, code, meta.KnownGap))
 			} else {
 				out = append(out, fmt.Sprintf("canary %s: NOT DETECTED by the quick check (exit %d)", name, code))
 			}
